@@ -117,6 +117,10 @@ type procSys struct {
 	// response whose send failed
 	delivered map[string][]string
 	failed    map[string]string
+	// every nonce the server has put into a response on this stream, in order (delivered or not)
+	nonces    []string
+	needsPush bool
+	grpc      bool
 }
 
 type recGen struct {
@@ -180,6 +184,7 @@ type recSotwStream struct {
 
 func (s *recSotwStream) Send(r *discovery.DiscoveryResponse) error {
 	short := shortOf[r.TypeUrl]
+	s.sys.nonces = append(s.sys.nonces, r.Nonce)
 	if s.sys.fail {
 		s.sys.failed[short] = r.Nonce
 		return errors.New("send failed")
@@ -206,6 +211,7 @@ type recDeltaStream struct {
 
 func (s *recDeltaStream) Send(r *discovery.DeltaDiscoveryResponse) error {
 	short := shortOf[r.TypeUrl]
+	s.sys.nonces = append(s.sys.nonces, r.Nonce)
 	if s.sys.fail {
 		s.sys.failed[short] = r.Nonce
 		return errors.New("send failed")
@@ -223,9 +229,9 @@ func (s *recDeltaStream) Recv() (*discovery.DeltaDiscoveryRequest, error) {
 	return nil, errors.New("eof")
 }
 
-func newProcSys(delta bool) *procSys {
+func newProcSys(delta, grpc bool) *procSys {
 	p := &procSys{
-		delta: delta, gens: map[string]model.XdsResourceGenerator{}, scripts: map[string]script{},
+		delta: delta, grpc: grpc, needsPush: true, gens: map[string]model.XdsResourceGenerator{}, scripts: map[string]script{},
 		delivered: map[string][]string{}, failed: map[string]string{},
 	}
 	p.push = model.NewPushContext()
@@ -234,8 +240,14 @@ func newProcSys(delta bool) *procSys {
 		p.gens[typeURL[t]] = recGen{t, p}
 	}
 	p.srv = pxds.VerifC03NewServer(p.gens)
+	// what ProxyNeedsPush answers is an input of the case (op `needs`)
+	p.srv.ProxyNeedsPush = func(_ *model.Proxy, req *model.PushRequest) (*model.PushRequest, bool) { return req, p.needsPush }
+	meta := &model.NodeMetadata{}
+	if grpc {
+		meta.Generator = "grpc" // a proxyless gRPC client: Proxy.IsProxylessGrpc()
+	}
 	p.proxy = &model.Proxy{
-		ID: "verif-proxy", Type: model.SidecarProxy, Metadata: &model.NodeMetadata{},
+		ID: "verif-proxy", Type: model.SidecarProxy, Metadata: meta,
 		WatchedResources: map[string]*model.WatchedResource{}, LastPushContext: p.push,
 	}
 	if delta {
@@ -291,11 +303,12 @@ func (p *procSys) resolve(short, k string) string {
 	return ""
 }
 
-func (p *procSys) pushRequest() *model.PushRequest {
+func (p *procSys) pushRequest(forced bool) *model.PushRequest {
 	return &model.PushRequest{
 		Push:           p.push,
 		ConfigsUpdated: sets.New(model.ConfigKey{Kind: kind.Endpoints, Name: "x", Namespace: "y"}),
 		Reason:         model.NewReasonStats(model.EndpointUpdate),
+		Forced:         forced,
 	}
 }
 
@@ -362,11 +375,11 @@ func (pr *procRunner) apply(f []string) (out string) {
 		}
 	}()
 	if f[0] == "case" {
-		pr.p = newProcSys(f[2] == "dproc")
+		pr.p = newProcSys(f[2] == "dproc", len(f) > 3 && f[3] == "grpc")
 		return "ok"
 	}
 	if pr.p == nil {
-		pr.p = newProcSys(false)
+		pr.p = newProcSys(false, false)
 	}
 	p := pr.p
 	p.calls, p.got = nil, nil
@@ -384,8 +397,15 @@ func (pr *procRunner) apply(f []string) (out string) {
 		}
 		_ = pxds.VerifC03ProcessRequest(p.srv, req, p.con)
 		return p.show()
-	case "push":
-		_ = pxds.VerifC03PushConnection(p.srv, p.con, p.pushRequest())
+	case "needs":
+		p.needsPush = f[1] == "1"
+		return "ok"
+	case "version":
+		// a new push context version: the prefix of the nonces that follow
+		p.push.PushVersion = wire.Dec(f[1])
+		return "ok"
+	case "push", "fpush":
+		_ = pxds.VerifC03PushConnection(p.srv, p.con, p.pushRequest(f[0] == "fpush"))
 		return p.show()
 	case "dreq":
 		req := &discovery.DeltaDiscoveryRequest{
@@ -401,8 +421,8 @@ func (pr *procRunner) apply(f []string) (out string) {
 		}
 		_ = pxds.VerifC03ProcessDeltaRequest(p.srv, req, p.con)
 		return p.show()
-	case "dpush":
-		_ = pxds.VerifC03PushConnectionDelta(p.srv, p.con, p.pushRequest())
+	case "dpush", "dfpush":
+		_ = pxds.VerifC03PushConnectionDelta(p.srv, p.con, p.pushRequest(f[0] == "dfpush"))
 		return p.show()
 	}
 	return "bad-op"
@@ -448,10 +468,18 @@ func genProc(stream string, seed uint64, n int, outp string) {
 	}
 	for c := 0; c < n; c++ {
 		r := root.Fork()
-		out.Line("case", strconv.Itoa(c), stream)
-		// at most one of the types whose push order is Go map order (ECDS, NDS): with both watched and a failing
-		// stream the set of generator calls would depend on the map order
+		if !delta && r.Chance(1, 8) {
+			out.Line("case", strconv.Itoa(c), stream, "grpc") // a proxyless gRPC client
+		} else {
+			out.Line("case", strconv.Itoa(c), stream)
+		}
+		// the push order of ECDS and NDS is Go map order: with both watched and a failing stream the set of generator
+		// calls would depend on it, so a case has both only when its stream never fails
 		pool := []string{"CDS", "EDS", "LDS", "RDS", "SDS", "WDS", "WL", "WAUTH", wire.Pick(r, []string{"ECDS", "NDS"})}
+		neverFails := r.Chance(1, 4)
+		if neverFails {
+			pool = append(pool[:8:8], "ECDS", "NDS", "ECDS", "NDS")
+		}
 		types := wire.Subset(r, pool, 1, 4)
 		if len(types) == 0 || r.Chance(1, 2) {
 			types = append(types, "CDS", "EDS")
@@ -515,13 +543,23 @@ func genProc(stream string, seed uint64, n int, outp string) {
 				}
 				out.Line("dreq", t, wire.EncList(sub), wire.EncList(unsub), wire.EncList(init), nk, pickErr())
 			case k < 14:
-				if delta {
-					out.Line("dpush")
-				} else {
-					out.Line("push")
+				op := "push"
+				if r.Chance(1, 3) {
+					op = "fpush" // Forced
 				}
+				if delta {
+					op = "d" + op
+				}
+				if r.Chance(1, 6) {
+					out.Line("version", "v"+strconv.Itoa(2+r.Intn(3))+"/")
+				}
+				out.Line(op)
 			case k < 16:
-				out.Line("fail", wire.B(r.Chance(1, 2)))
+				if neverFails || r.Chance(1, 3) {
+					out.Line("needs", wire.B(r.Chance(1, 2)))
+				} else {
+					out.Line("fail", wire.B(r.Chance(1, 2)))
+				}
 			default:
 				genScriptLine(r, out, t, delta)
 			}
@@ -565,9 +603,12 @@ func sameNames(a []string, b sets.String) bool { return sets.New(a...).Equals(b)
 // stream exactly for the calls whose generator had something, until a send fails.
 func (o *procOracle) checkAnswer(clause string, want []pcall, line string) {
 	p := o.pr.p
-	bad := len(p.calls) != len(want)
+	// ECDS and NDS are pushed in Go map order: compare in the canonical order
+	calls := append([]pcall(nil), p.calls...)
+	sort.SliceStable(calls, func(i, j int) bool { return wireRank[calls[i].short] < wireRank[calls[j].short] })
+	bad := len(calls) != len(want)
 	for i := 0; !bad && i < len(want); i++ {
-		bad = p.calls[i].short != want[i].short || !sameNames(p.calls[i].names, sets.New(want[i].names...))
+		bad = calls[i].short != want[i].short || !sameNames(calls[i].names, sets.New(want[i].names...))
 	}
 	if bad {
 		o.fail(clause, fmt.Sprintf("generator calls %s, want %s :: %s", showCalls(p.calls), showCalls(want), line))
@@ -590,6 +631,7 @@ func (o *procOracle) checkAnswer(clause string, want []pcall, line string) {
 			o.fail("response-without-nonce", line)
 		}
 	}
+	sort.SliceStable(got, func(i, j int) bool { return wireRank[got[i]] < wireRank[got[j]] })
 	if strings.Join(got, ",") != strings.Join(wantSent, ",") {
 		o.fail(clause, fmt.Sprintf("responses %v, want %v :: %s", got, wantSent, line))
 	}
@@ -624,6 +666,15 @@ func (o *procOracle) checkSilent(clause, line string) {
 // after records the responses that reached the client and compares the watch table with the history.
 func (o *procOracle) after(line string) {
 	p := o.pr.p
+	// every response carries a nonce that has not been used on this stream before: a client echoes a nonce to say
+	// which response it answers
+	seen := map[string]bool{}
+	for _, n := range p.nonces {
+		if seen[n] {
+			o.fail("response-nonce-is-fresh-on-the-stream", fmt.Sprintf("nonce %q used twice :: %s", n, line))
+		}
+		seen[n] = true
+	}
 	for _, w := range p.got {
 		if p.delta {
 			o.sendDelta(w.short, w.nonce, nil, false)
@@ -654,7 +705,8 @@ func (o *procOracle) sotwReq(f []string, line string) {
 	switch {
 	case !e.respond:
 		o.checkSilent(e.clause, line)
-	case e.full:
+	case e.full || o.pr.p.grpc:
+		// a proxyless gRPC client is never narrowed: it expects its whole subscription in every response
 		o.checkAnswer(e.clause, []pcall{{t, names}}, line)
 	default:
 		o.checkAnswer(e.clause, []pcall{{t, e.asked}}, line)
@@ -685,6 +737,12 @@ func (o *procOracle) pushAll(f []string, line string) {
 	p := o.pr.p
 	order := []string{"CDS", "EDS", "LDS", "RDS", "SDS", "WDS", "WL", "WAUTH", "ECDS", "NDS"}
 	var want []pcall
+	if !p.needsPush {
+		// the proxy does not need the push: nothing is generated, nothing is sent
+		o.checkAnswer("push-not-needed-sends-nothing", nil, line)
+		o.after(line)
+		return
+	}
 	for _, t := range order {
 		h := o.get(t)
 		if !h.exists {
@@ -756,7 +814,7 @@ func oracleProc(stream, in, outp string) {
 			o.sotwReq(f, line)
 		case "dreq":
 			o.deltaReq(f, line)
-		case "push", "dpush":
+		case "push", "dpush", "fpush", "dfpush":
 			o.pushAll(f, line)
 		default:
 			if o.pr.apply(f) == "crash" {
